@@ -34,7 +34,14 @@ use surf_n_term::{Key, KeyChord, KeyMap, KeyMapHandler, KeyMod, KeyName};
 // ---------------------------------------------------------------------------------------------
 // key alphabet (the model works on indices into this table)
 
-const NAMES: [&str; 9] = ["a", "b", "^c", "c", "x", "F1", "F(1+2^32)", "Tab", "Char(tab)"];
+const NAMES: [&str; 10] = ["a", "b", "^c", "c", "x", "F1", "F(1+2^32)", "Tab", "Char(tab)", "numlock+a"];
+/// a key and the same key with a lock modifier (different values), and a third key
+const A5: [u8; 3] = [0, 9, 1];
+
+/// The "skin" of the key table: which real keys the indices 0 (a), 1 (b), 3 (c), 4 (x) stand for. Skin 0 = plain
+/// characters; skin 1 = pointer motion, a character, the named Tab key and a mouse button (a matcher must not care
+/// what kind of key it is given). Set once per pass, before the parallel sweep starts.
+static SKIN: AtomicU64 = AtomicU64::new(0);
 /// keys that are different values but easy to confuse: function keys 2^32 apart, the named Tab key and the
 /// tab character
 const A4: [u8; 4] = [5, 6, 7, 8];
@@ -46,6 +53,14 @@ const HANDLER_CHORD_KEYS: [u8; 3] = [0, 1, 3];
 const HANDLER_TYPED_KEYS: [u8; 4] = [0, 1, 3, 4];
 
 fn key(i: u8) -> Key {
+    if SKIN.load(Ordering::Relaxed) == 1 {
+        match i {
+            0 => return Key::new(KeyName::MouseMove, KeyMod::EMPTY),
+            3 => return Key::new(KeyName::Tab, KeyMod::EMPTY),
+            4 => return Key::new(KeyName::MouseLeft, KeyMod::PRESS),
+            _ => {}
+        }
+    }
     match i {
         0 => Key::new(KeyName::Char('a'), KeyMod::EMPTY),
         1 => Key::new(KeyName::Char('b'), KeyMod::EMPTY),
@@ -55,6 +70,7 @@ fn key(i: u8) -> Key {
         6 => Key::new(KeyName::F(1 + (1usize << 32)), KeyMod::EMPTY),
         7 => Key::new(KeyName::Tab, KeyMod::EMPTY),
         8 => Key::new(KeyName::Char('\t'), KeyMod::EMPTY),
+        9 => Key::new(KeyName::Char('a'), KeyMod::NUMLOCK),
         _ => Key::new(KeyName::Char('x'), KeyMod::EMPTY),
     }
 }
@@ -878,7 +894,8 @@ pub fn run(ctx: &Ctx) -> Result<Report, String> {
     let s2 = run_bfs(ctx, &A2, d2, &viol, &samples, &counters);
     let d4 = ctx.tier.pick(2usize, 3usize);
     let s4 = run_bfs(ctx, &A4, d4, &viol, &samples, &counters);
-    capped |= s3.capped || s2.capped || s4.capped;
+    let s5 = run_bfs(ctx, &A5, d3, &viol, &samples, &counters);
+    capped |= s3.capped || s2.capped || s4.capped || s5.capped;
 
     lap("bfs", &mut timing);
     // 2. override merging over all ordered pairs of small maps
@@ -920,7 +937,7 @@ pub fn run(ctx: &Ctx) -> Result<Report, String> {
     let nmax = ctx.tier.pick(3, 4);
     let sets = prefix_free_sets(&hchords, nmax);
     let typed_len = ctx.tier.pick(5usize, 6usize);
-    let hc = sets
+    let matcher_pass = |typed_len: usize, skin: u64| sets
         .par_iter()
         .map(|set| {
             let mut counts = HandlerCounts::default();
@@ -933,12 +950,13 @@ pub fn run(ctx: &Ctx) -> Result<Report, String> {
             for len in 0..=typed_len {
                 for idx in 0..4u64.pow(len as u32) {
                     let typed = typed_string(idx, len);
-                    let w = || json!({"kind": "handler", "map": bindings.iter().map(|c| show(c)).collect::<Vec<_>>(), "typed": show(&typed)});
+                    let w = || json!({"kind": "handler", "skin": skin, "map": bindings.iter().map(|c| show(c)).collect::<Vec<_>>(), "typed": show(&typed)});
+                    let note = if skin == 1 { " [keys: a = pointer motion, b = 'b', c = Tab, x = mouse button press]" } else { "" };
                     match catch(|| check_matcher(&map, &dict, &bindings, &typed, &mut counts)) {
-                        Err(p) => viol.add(format!("handler:{}", p.key()), format!("panicked: {}", p.message), w()),
-                        Ok(Some((k, d))) => viol.add(format!("handler:{k}"), d, w()),
+                        Err(p) => viol.add(format!("handler:{}", p.key()), format!("panicked: {}{note}", p.message), w()),
+                        Ok(Some((k, d))) => viol.add(format!("handler:{k}"), format!("{d}{note}"), w()),
                         Ok(None) => {
-                            samples.offer(hash64(&(set, idx, len)), || json!({"space": "matcher", "map": show_listing(&dict.list()), "typed": show(&typed)}));
+                            samples.offer(hash64(&(set, idx, len, skin)), || json!({"space": "matcher", "skin": skin, "map": show_listing(&dict.list()), "typed": show(&typed)}));
                         }
                     }
                 }
@@ -962,8 +980,21 @@ pub fn run(ctx: &Ctx) -> Result<Report, String> {
                 )
             },
         );
-    capped |= hc.1;
+    let hc = matcher_pass(typed_len, 0);
+    // the same sweep (one key shorter) with other kinds of keys behind the four indices
+    SKIN.store(1, Ordering::SeqCst);
+    let hc1 = matcher_pass(typed_len - 1, 1);
+    SKIN.store(0, Ordering::SeqCst);
+    capped |= hc.1 || hc1.1;
     let mut hc = hc.0;
+    let special_key_runs = hc1.0.runs;
+    hc.runs += hc1.0.runs;
+    hc.keys += hc1.0.keys;
+    hc.fire_idle += hc1.0.fire_idle;
+    hc.fire_after_unbound += hc1.0.fire_after_unbound;
+    hc.silent += hc1.0.silent;
+    hc.free += hc1.0.free;
+    hc.fired += hc1.0.fired;
 
     // 3c. registrations while the matcher is idle between two chords
     let sw_chords = chords(&HANDLER_CHORD_KEYS, 1, 2);
@@ -1087,10 +1118,11 @@ pub fn run(ctx: &Ctx) -> Result<Report, String> {
     }
 
     let ld = |a: &AtomicU64| a.load(Ordering::Relaxed);
-    let states = s3.states + s2.states + s4.states;
-    let transitions = s3.transitions + s2.transitions + s4.transitions;
+    let states = s3.states + s2.states + s4.states + s5.states;
+    let transitions = s3.transitions + s2.transitions + s4.transitions + s5.transitions;
     let pairs = ld(&pairs);
     let mut r = Report::new("model_checking");
+    r.set("matcher_runs_with_special_keys", special_key_runs);
     r.set("matcher_long_chords", json!({"maps": long_maps_n, "runs": long_runs, "typed_len": long_typed}));
     r.set("matcher_map_switch_at_idle", json!({"binding_sets": sw_sets.len(), "ordered_pairs": sw_sets.len() * sw_sets.len(), "typed_before": sw_typed1, "typed_after": sw_typed2, "compared_runs": switch_runs}));
     r.set("states", states)
@@ -1186,6 +1218,7 @@ pub fn replay(w: &Value) -> Result<(bool, String), String> {
             })
         }
         "handler" => {
+            SKIN.store(w["skin"].as_u64().unwrap_or(0), Ordering::SeqCst);
             let bindings = strs(&w["map"])?;
             let typed = unshow(w["typed"].as_str().ok_or("typed")?)?;
             let (map, dict) = build(&bindings, 0);
